@@ -333,7 +333,7 @@ impl Part for C07 {
         let _ = classes;
         // the same, for contexts that have used up their sequence numbers (export stays legal there): a receiver that
         // differs in the info string must still export different secrets after both sides reached exhaustion
-        if c.suite.aead.can_seal() {
+        if crate::suites::HOOKS && c.suite.aead.can_seal() {
             let ops = suite_ops(c.suite);
             let info2 = [&info[..], &[0u8][..]].concat();
             let mk_s = |inf: &[u8]| {
